@@ -55,15 +55,28 @@ Definition traverse_path_h (h : heap) (path : bytes) (n : nodeptr) : option node
   | Npos p => traverse_pos_h h p n
   end.
 
+(* Clvm/Sexp.parse_atom, with the "blob runs past the end of the buffer" test done on binary
+   numbers BEFORE the declared size is turned into a (unary) nat: a 70-byte input may declare a
+   2^34-byte atom, and N.to_nat of that costs gigabytes in the extracted runner.
+   DeBrProofs.parse_atom_n_eq: it is the same function. *)
+Definition parse_atom_n (b : byte) (rest : bytes) : option (bytes * bytes) :=
+  if b2n b <? 128 then Some ([b], rest)
+  else match decode_size (b2n b) rest with
+       | None => None
+       | Some (size, rest') =>
+           if N.of_nat (length rest') <? size then None
+           else let n := N.to_nat size in Some (firstn n rest', skipn n rest')
+       end.
+
 (* parse_atom.rs parse_atom: first byte [b] (not 0xff / 0xfe) already consumed *)
 Definition parse_atom_bytes (b : byte) (rest : bytes) : option (bytes * bytes) :=
-  if byte_eqb b x80 then Some ([], rest) else parse_atom b rest.
+  if byte_eqb b x80 then Some ([], rest) else parse_atom_n b rest.
 
 (* parse_path: reads its own first byte *)
 Definition parse_path (bs : bytes) : option (bytes * bytes) :=
   match bs with
   | [] => None
-  | pb :: rest => parse_atom pb rest
+  | pb :: rest => parse_atom_n pb rest
   end.
 
 (* ---------- tree level ---------- *)
